@@ -23,7 +23,9 @@ def run(tier, corrupt=0):
                                        extra=["--work-budget", 6_000_000 if tier == "quick" else 400_000_000])
     sweep = iter_common.record_sweep(c, "sweep-range", 6 if tier == "quick" else 1, budget=12_000_000 if tier == "quick" else 600_000_000)
     c.setv("family_sweep_events", len(sweep))
-    gen = iter_common.record_cases(c, "cases-range", iter_common.generate_constant_cases(c), 8 if tier == "quick" else 1)
+    const_cases = iter_common.generate_constant_cases(c)
+    iter_common.hints_phase(c, tier, const_cases, corrupt=corrupt)
+    gen = iter_common.record_cases(c, "cases-range", const_cases, 8 if tier == "quick" else 1)
     c.setv("generated_constant_shaped_events", len(gen))
     lines = iter_common.renumber(lines + sweep + gen)
     verdicts, nint, nruns, nontrivial = iter_common.validate(c, lines, shards, "interval stream")
